@@ -408,6 +408,20 @@ def checkCase (strict : List String) (c : Case) : CaseResult := Id.run do
     -- segment tie (builder N1)
     let (sf, sst) := segFindings c (c.get "assert").isEmpty
     for k in sst do s := bump s k
+    -- clause (b) on the code's own segments, against the TRUE checkpoints (not the cache): with option nudgeFinal off a dumped
+    -- segment that has a checkpoint of its connector strictly inside it must be fixed (Props/C10Segs.checkpoint_segment_is_fixed
+    -- says so for a cache that is right; a stale cache - reports/bN1.md finding 4 - arms exactly this).  Counted only.
+    if !finalNudge then
+      let cpsOf := (c.get "cps").toList.map (fun l => (100 + nat! l[0]!, ptsFrom l 2 (nat! l[1]!)))
+      for r in parseRegions c do
+        for sg in r.segs do
+          if !sg.fixed then
+            match lookup cpsOf sg.conn with
+            | some cps =>
+              if cps.any (fun q => let (pd, pa) := if r.dim == 0 then (q.x, q.y) else (q.y, q.x)
+                                   pd == sg.pos && decide (sg.lo < pa) && decide (pa < sg.hi)) then
+                s := bump s "finding.cp-segment-shiftable"
+            | none => pure ()
     match sf with
     | some m => s := bump s "segtie.diverge"; if diverged.isNone then diverged := some m
     | none => pure ()
@@ -420,7 +434,7 @@ def checkCase (strict : List String) (c : Case) : CaseResult := Id.run do
     for f in fs do
       match f with
       | .diverge m =>
-        if crooked && (m.splitOn "written position").length > 1 then s := bump s "regiontie.exempt.shared-point"
+        if crooked && ((m.splitOn "written position").length > 1 || (m.splitOn "a skipped region was written to").length > 1) then s := bump s "regiontie.exempt.shared-point"
         else if diverged.isNone then diverged := some m
       | .spec cls m =>
         if cls == "narrow-sep" then s := gated s "narrow-sep" m
@@ -486,7 +500,14 @@ def checkCase (strict : List String) (c : Case) : CaseResult := Id.run do
             -- scene has no checkpoint; the free segment after the checkpoint is pulled past it
             let someWithout := routes.any (fun (j, _) => j != id && (lookup cpss j).isNone)
             let unifying := (opts / 4) % 2 == 1
-            if someWithout && unifying && !wide then s := gated s "cp-disp-unify" msg'
+            -- the same mechanism seen directly (builder N1, pass snapshots): at the start of some pass a checkpoint that the
+            -- cache records INSIDE segment s (odd index 2s+1) coincides with an end vertex of that segment - an earlier pass
+            -- moved the adjoining segment onto the checkpoint's coordinate, the strict tests then give no limit.  This does not
+            -- need a connector without checkpoints (replay c10 --seed 7 --tier quick --scale 8 --only 90510: all three
+            -- connectors carry checkpoints)
+            let cornerByUnify := (parsePasses c).any (fun p => p.conns.any (fun cn => cn.id == 100 + id &&
+              cn.cache.any (fun (k, q) => k % 2 == 1 && (cn.ps[(k - 1) / 2]? == some q || cn.ps[(k + 1) / 2]? == some q))))
+            if unifying && !wide && (someWithout || cornerByUnify) then s := gated s "cp-disp-unify" msg'
             else s := fail s ("[cp-disp-mid] " ++ msg')
           else s := gated s "cp-disp" msg'
     | none => pure ()
